@@ -11,13 +11,36 @@ cov/corr, len; Series and DataFrame targets; axis 0/1 where dask has axis=1; ski
 (sum/prod), ddof (var/std/sem), split_every in {2, 3, False, None, omitted}; columns int64 / str / float with
 NaN / float / bool / datetime / categorical / nullable Int64 / nullable boolean; partitionings by from_pandas
 (npartitions, chunksize incl. single-row partitions), from_map / from_delayed row slices INCLUDING EMPTY
-partitions, cleared divisions.  pandas raising -> reject.  Options the statement does not name (dropna,
-normalize, sort, min_periods, keep, ...) are left at their defaults.
+partitions, cleared divisions.  pandas raising -> reject.  min_periods (cov/corr) is left at its default; dask's
+nlargest/nsmallest have no `keep`.
+
+Keyword x tree stratum (`kwtree` cases).  "Equal pandas for any split_every" includes every keyword of the pandas
+signature that the dask method accepts: its effect has to survive the intermediate combine level(s) of the tree
+reduction (or the shuffle of the split_out path).  For every operation x target the stratum enumerates each
+non-default keyword value ALONE (plus random combinations): skipna=False, numeric_only=True (frame holding a
+non-numeric column), min_count in {1, 2, valid+1, 1000}, ddof in {0, 2}, axis=1, value_counts sort in {True, False} /
+ascending=True / dropna=False / normalize=True, nunique/mode dropna=False, nlargest/nsmallest n in {1,2,3,7,40};
+x split_every in {2, 3 on 5-11 partitions; None or omitted (= 8) on 9-17 partitions} so that an intermediate combine
+level exists; x split_out in {omitted, 1, True, 2} for the Series methods that accept it (value_counts, nunique,
+unique); Series.unique is generated here as the split_out companion of nunique.  Data: 10-45 rows, NaN/NA bearing
+columns preferred for skipna/dropna/min_count, missing values injected into the str / categorical / datetime column
+(`na`), all valid values made falsy/truthy for any/all(skipna=False) (`flat`).  Observability: the lowered graph is
+inspected before compute (`tree_levels` = deepest TreeReduce combine level j >= 1 present, `shuffle` = shuffle tasks
+present), so "multi-level tree" is an observed fact, not a computation from split_every and npartitions.  A keyword
+counts (`kw_tree:<op>:<kw>`, `kw_shuffle:..`, `kw_rowwise:<op>:axis` - axis=1 has no tree, >= 5 partitions instead)
+only when pandas, re-run with that keyword left out, raises or answers differently on the same data.  Not coverable:
+idxmin/idxmax skipna=False with a tree (pandas refuses whenever an NA is present, and without NA the keyword has no
+effect); all(skipna=False) differs from the default only on nullable columns (known findings); DataFrame.nunique has
+no tree (one shuffle per column); len has no keyword; describe only split_every.  median/quantile are approximate
+in dask for more than one partition and first/last are not DataFrame reductions: outside the statement.
 
 Comparison discipline
 * Series/DataFrame results: vf.gen.frames.compare, ordered, rtol 1e-9 (pandas.testing atol 1e-8), dtype facet
   on; scalars: |r-e| <= 1e-9*|e| + 1e-9*max(1,|data|max); NaN/NA/NaT are all "missing" for a scalar.
-* value_counts: multiset of (value, count) + index name + "counts non-increasing" (ties unspecified).
+* value_counts: multiset of (value, count|proportion) + index name + result name; order facet only when sort is
+  True or omitted (pandas default True): counts non-increasing, non-decreasing under ascending=True (ties
+  unspecified); sort=False promises no order a partitioned computation could reproduce.
+* unique: the SET of values (missing markers unified, no value twice) + dtype; no order.
 * mode / nlargest / nsmallest / idxmin / idxmax: exact, ordered (sorted modes; keep='first' is documented;
   first occurrence for idx*).
 * describe: only the rows count/mean/std/min/max that pandas produces are compared; a wanted row that is absent
@@ -55,8 +78,16 @@ Calibration (false alarms corrected)
   from one mechanism into another that merely has the same coarse symptom.
 * var/std/sem with ddof >= number of valid values on a NULLABLE column: pandas answers inf there (numpy's M/0 in
   the masked reduction) but NaN for numpy-backed columns; no single pandas rule -> rejected.
-* options outside the statement's list (min_periods, dropna, normalize, sort/ascending, keep) are not generated
-  (Cov ignores min_periods > 2: seen during calibration, outside the stated domain).
+* min_periods is not generated (Cov ignores min_periods > 2: seen during calibration, outside the stated domain).
+* mode(dropna=False): pandas puts a missing mode FIRST for categorical / datetime columns (sorted by code / i8) and
+  LAST otherwise, dask always last; the place of the missing marker among the sorted modes is an accident of the
+  pandas code path -> missing entries are moved to the end on both sides before the ordered comparison.
+* value_counts order under an explicit sort=True / ascending=True is a mechanism of its own: the static label
+  `value_counts:sort-omitted:order` is only used when `sort` is left to dask's default (None).
+* dtype-class labels keep the causal options of the keyword stratum (dropna= / sort= / normalize= / ascending= /
+  split_out / tree-path), so that e.g. `value_counts:categorical-column&split_out>1:length` (known) cannot absorb a
+  dropna defect on a categorical column; split_out True and 2 are one feature (`split_out>1`, the shuffle path),
+  value_counts sort=True and split_out=1 are one feature (`tree-path`) when the failure needs the TreeReduce path.
 * frames hold plain columns plus at most one column of a special class (or a wide subset under
   numeric_only=True): every class is covered without multiplying labels by their cross products.
 
@@ -66,6 +97,8 @@ Genuine defects (PENDING, findings_proposed/C37.md): the suspected DESIGN §6 #1
 alphabetically sorted idxmin/idxmax results, unsorted value_counts, and many failures on nullable / datetime columns.
 Several PENDING labels share a root cause (R1..R9 in the findings file): the same defect reached through a
 different trigger (empty partition vs. all-NA partition vs. plain second partition, series vs. frame path).
+Found by the keyword x tree stratum: `value_counts:categorical-column&split_out>1:length` (an empty disk-shuffle output
+partition is handed the non-empty meta of the categorical value_counts chunk; fix offered in fixes_ready/C37_04).
 """
 from __future__ import annotations
 
@@ -78,18 +111,50 @@ RULE = ("cases = (frame seed/rows/index kind, partitioning description, operatio
         "options skipna/numeric_only/axis/min_count/ddof, split_every). Complete part: a fixed 6-row frame x all its "
         "partitionings (see EXHAUSTIVE_SPACE) x every operation x skipna x three targets; random part: 0-30 rows, 7 index "
         "kinds, 9 column dtypes, from_pandas/from_map/from_delayed partitionings with empty and single-row partitions. "
-        "non-trivial = at least 2 partitions and 2 rows; distinct = distinct description.")
+        "Keyword x tree stratum: every operation x target x each non-default keyword value alone (skipna, numeric_only, "
+        "min_count, ddof, axis, sort, ascending, dropna, normalize, n) x split_every {2, 3, None/omitted} on 5-17 "
+        "partitions (an intermediate combine level exists) x split_out {omitted, 1, True, 2} where accepted, plus random "
+        "keyword combinations. non-trivial = at least 2 partitions and 2 rows; distinct = distinct description.")
 ASSUMPTIONS = ["pandas 3.0.5 on the concatenated frame defines the expected value", "sync scheduler",
                "python-backed str dtype (pyarrow import stub); Arrow strings are not exercised"]
-BUDGET = {"quick": 60, "thorough": 420}
+BUDGET = {"quick": 90, "thorough": 480}
+# keyword x tree coverage floors (~45 % of the minimum over seeds 0 1 2 7 12345 on the unchanged tree): a keyword counts
+# only with an intermediate combine level observed in the graph (kw_tree), the split_out shuffle on >= 5 partitions
+# (kw_shuffle) or axis=1 on >= 5 partitions (kw_rowwise), and only where the pandas default answers differently
+_KW_FLOORS_QUICK = {
+    "kw_rowwise:all:axis": 6, "kw_rowwise:any:axis": 6, "kw_rowwise:count:axis": 9,
+    "kw_rowwise:idxmax:axis": 6, "kw_rowwise:idxmin:axis": 4, "kw_rowwise:max:axis": 8,
+    "kw_rowwise:mean:axis": 8, "kw_rowwise:min:axis": 10, "kw_rowwise:nunique:axis": 10,
+    "kw_rowwise:prod:axis": 8, "kw_rowwise:sem:axis": 8, "kw_rowwise:std:axis": 7,
+    "kw_rowwise:sum:axis": 10, "kw_rowwise:var:axis": 8, "kw_shuffle:nunique:dropna": 26,
+    "kw_shuffle:value_counts:ascending": 24, "kw_shuffle:value_counts:dropna": 32,
+    "kw_shuffle:value_counts:normalize": 37, "kw_shuffle:value_counts:sort": 21,
+    "kw_tree:all:skipna": 1, "kw_tree:any:skipna": 8, "kw_tree:corr:numeric_only": 6,
+    "kw_tree:count:numeric_only": 8, "kw_tree:cov:numeric_only": 5, "kw_tree:idxmax:numeric_only": 4,
+    "kw_tree:idxmin:numeric_only": 6, "kw_tree:max:numeric_only": 8, "kw_tree:max:skipna": 53,
+    "kw_tree:mean:numeric_only": 9, "kw_tree:mean:skipna": 52, "kw_tree:min:numeric_only": 7,
+    "kw_tree:min:skipna": 53, "kw_tree:mode:dropna": 20, "kw_tree:mode:numeric_only": 14,
+    "kw_tree:nlargest:n": 92, "kw_tree:nsmallest:n": 88, "kw_tree:nunique:dropna": 14,
+    "kw_tree:prod:min_count": 9, "kw_tree:prod:numeric_only": 9, "kw_tree:prod:skipna": 51,
+    "kw_tree:sem:ddof": 18, "kw_tree:sem:numeric_only": 10, "kw_tree:sem:skipna": 57,
+    "kw_tree:std:ddof": 13, "kw_tree:std:numeric_only": 8, "kw_tree:std:skipna": 54,
+    "kw_tree:sum:min_count": 10, "kw_tree:sum:numeric_only": 9, "kw_tree:sum:skipna": 51,
+    "kw_tree:value_counts:ascending": 30, "kw_tree:value_counts:dropna": 35,
+    "kw_tree:value_counts:normalize": 52, "kw_tree:value_counts:sort": 42, "kw_tree:var:ddof": 18,
+    "kw_tree:var:numeric_only": 10, "kw_tree:var:skipna": 56,
+}
+_KW_FLOORS_THOROUGH = {}
 FLOORS = {
-    "quick": {"evaluations": 2900, "distinct_nontrivial": 2400, "max_skipped_fraction": 0.3,
-              "counters": {"compared": 2700, "dtype_facet_checked": 2700, "empty_part": 750, "allna_part": 900,
-                           "single_row_part": 1400, "skipna_false": 650, "tree": 1500, "axis1": 130},
-              "sets": {"op_options": 480, "partition_shapes": 600}},
+    "quick": {"evaluations": 4000, "distinct_nontrivial": 3400, "max_skipped_fraction": 0.3,
+              "counters": {"compared": 3700, "dtype_facet_checked": 3700, "empty_part": 870, "allna_part": 1100,
+                           "single_row_part": 1950, "skipna_false": 820, "tree": 2150, "axis1": 215,
+                           "multi_level_tree_cases": 2100, "shuffle_path_cases": 225, **_KW_FLOORS_QUICK},
+              "sets": {"op_options": 710, "partition_shapes": 1400, "multi_level_tree_ops": 38, "tree_configs": 82,
+                       "nondefault_kw": 170}},
     "thorough": {"evaluations": 24000, "distinct_nontrivial": 19000, "max_skipped_fraction": 0.3,
                  "counters": {"compared": 23000, "dtype_facet_checked": 22000, "empty_part": 6800, "allna_part": 4300,
-                              "single_row_part": 10000, "skipna_false": 4200, "tree": 8800, "axis1": 1700},
+                              "single_row_part": 10000, "skipna_false": 4200, "tree": 8800, "axis1": 1700,
+                              **_KW_FLOORS_THOROUGH},
                  "sets": {"op_options": 1300, "partition_shapes": 4600}},
 }
 EXHAUSTIVE_SPACE = {
@@ -164,6 +229,9 @@ PENDING = {
         'DataFrame.corr(numeric_only=True) raises TypeError for a frame holding a datetime column (pandas drops it and answers)',
     'nunique:signed-zero&multi-partition:values':
         'nunique counts -0.0 and +0.0 as two values when the data is spread over several partitions',
+    'value_counts:categorical-column&split_out>1:length':
+        'Series.value_counts(split_out=True|2) of a categorical column repeats categories with count 0: an empty disk-shuffle '
+        'output partition is handed the non-empty chunk meta (fix offered: fixes_ready/C37_04)',
 }
 
 SKIPNA_OPS = ("sum", "prod", "min", "max", "mean", "var", "std", "sem", "any", "all", "idxmin", "idxmax")
@@ -182,7 +250,7 @@ POOL = {
     "var": "acdenm", "std": "acdenmt", "sem": "acdenm", "any": "acdenm", "all": "acdenm",
     "idxmin": "acdetnm", "idxmax": "acdetnm", "count": "abcdetknm", "nunique": "abcdetknm",
     "value_counts": "abcdetknm", "mode": "abcdetknm", "nlargest": "acdnt", "nsmallest": "acdnt",
-    "describe": "acdnt", "cov": "acden", "corr": "acden", "len": "abcdetknm",
+    "describe": "acdnt", "cov": "acden", "corr": "acden", "len": "abcdetknm", "unique": "abcdetknm",
 }
 NUMERIC = "acdn"
 PLAIN = "acde"
@@ -246,6 +314,149 @@ def cases(tier, seed):
     k = 3000 if tier == "quick" else 40000
     for _ in range(k):
         yield _rand_case(rng)
+    # ---- keyword x tree stratum ---------------------------------------------------------
+    yield from _kw_cases(tier, random.Random(seed * 9973 + 3737))
+
+
+# ------------------------------------------------------------------------------------------
+# keyword x tree stratum: every keyword whose effect must survive the combine step of the tree reduction (or the
+# shuffle of the split_out path), on >= 5 partitions so that an intermediate combine level exists
+
+KW_OPS = SKIPNA_OPS + OTHER_OPS + ("unique",)
+SPLIT_OUT_OPS = ("value_counts", "nunique", "unique")        # Series methods that accept split_out
+DEFAULT_TREE_OPS = ("value_counts", "nlargest", "nsmallest", "unique")   # split_every defaults to None (= 8)
+DROPNA_OPS = ("value_counts", "nunique", "unique", "mode", "count")
+KW_DEFAULTS = {"skipna": True, "numeric_only": False, "min_count": 0, "ddof": 1, "axis": 0, "sort": None,
+               "ascending": False, "dropna": True, "normalize": False, "n": 5}
+SPLIT_OUTS = ("omit", 1, True, 2)
+
+
+def _kw_table(op, target):
+    """keyword -> non-default values, for the keywords the dask method accepts"""
+    t = {}
+    if op in SKIPNA_OPS:
+        t["skipna"] = (False,)
+    if op in NUMONLY_OPS and target == "frame":
+        t["numeric_only"] = (True,)
+    if op in ("sum", "prod"):
+        t["min_count"] = (1, 2, "v+1", 1000)
+    if op in ("var", "std", "sem"):
+        t["ddof"] = (0, 2)
+    if op == "value_counts":
+        t.update(sort=(True, False), ascending=(True,), dropna=(False,), normalize=(True,))
+    if op in ("nunique", "mode"):
+        t["dropna"] = (False,)
+    if op in ("nlargest", "nsmallest"):
+        t["n"] = (1, 2, 3, 7, 40)
+    if op in AXIS1_OPS and target == "frame":
+        t["axis"] = (1,)
+    return t
+
+
+def _kw_targets(op):
+    if op in ("value_counts", "unique"):
+        return ("series",)
+    return ("series", "frame")
+
+
+def _kw_cases(tier, rng):
+    reps = 2 if tier == "quick" else 6
+    for op in KW_OPS:
+        for target in _kw_targets(op):
+            table = _kw_table(op, target)
+            singles = [(k, v) for k, vals in table.items() for v in vals] or [None]
+            sos = SPLIT_OUTS if (op in SPLIT_OUT_OPS and target == "series") else ("omit",)
+            for single in singles:
+                for se in (2, 3, "default"):
+                    for so in sos:
+                        # keywords that are often refused by pandas or fail before a graph exists get more tries
+                        more = single and (single[0] in ("numeric_only", "axis") or op in ("any", "all"))
+                        for _ in range(reps * 2 if more else reps):
+                            yield _kw_case(rng, op, target, table, single, se, so, 0.25)
+    opw = KW_OPS + ("value_counts",) * 5 + ("nunique", "unique", "mode") * 2
+    for _ in range(1400 if tier == "quick" else 12000):
+        op = rng.choice(opw)
+        target = rng.choice(_kw_targets(op))
+        so = rng.choice(SPLIT_OUTS) if (op in SPLIT_OUT_OPS and target == "series") else "omit"
+        yield _kw_case(rng, op, target, _kw_table(op, target), None, rng.choice((2, 3, "default")), so, 0.45)
+
+
+def _kw_case(rng, op, target, table, single, se, so, extra_p):
+    from ..gen import frames as F
+
+    kw = {}
+    if single:
+        kw[single[0]] = single[1]
+    for k, vals in table.items():
+        # axis=1 has no tree at all: only as the single keyword, or rarely
+        if k not in kw and rng.random() < (0.08 if k == "axis" else extra_p):
+            kw[k] = rng.choice(vals)
+    if op in ("nlargest", "nsmallest") and "n" not in kw:
+        kw["n"] = rng.choice((1, 2, 3, 5, 7, 40))
+    if se == "default":        # None = 8 (the default of DEFAULT_TREE_OPS): an intermediate level needs > 8 partitions
+        nparts = rng.choice((9, 10, 12, 17))
+        se = "omit" if (op in DEFAULT_TREE_OPS and rng.random() < 0.5) else None
+    else:
+        nparts = rng.choice((5, 6, 7, 9, 11))
+    n = rng.randint(2 * nparts, max(45, 2 * nparts))
+    how = rng.choice(("npartitions",) * 11 + ("slices",) * 6 + ("delayed",) * 3)
+    if how == "npartitions":
+        part = {"how": how, "n": nparts, "clear": rng.random() < 0.15}
+    else:
+        cuts = sorted(rng.sample(range(1, n), nparts - 1))
+        if rng.random() < 0.25:           # one empty partition
+            i = rng.randrange(len(cuts))
+            cuts[i] = cuts[i - 1] if i else 0
+        part = {"how": how, "cuts": sorted(cuts)}
+    case = {"op": op, "seed": rng.randrange(2 ** 31), "nrows": n, "index": rng.choice(F.INDEX_KINDS), "part": part,
+            "kw": kw, "target": target, "kwtree": True}
+    if se != "omit":
+        case["se"] = se
+    if so != "omit":
+        case["so"] = so
+    na_wanted = any(k in kw for k in ("skipna", "dropna", "min_count")) or op in DROPNA_OPS
+    if op in ("any", "all") and "skipna" in kw and rng.random() < 0.6:
+        # skipna only matters for any/all when the valid values alone give the opposite answer: every valid value of
+        # the NaN/NA bearing columns is made falsy (any) / truthy (all)
+        case["flat"] = op
+    if target == "series":
+        pool = POOL[op]
+        nas = [c for c in pool if c in "cnm"]
+        if op in DROPNA_OPS and rng.random() < 0.3:
+            case["col"] = rng.choice([c for c in pool if c in "bkt"])
+            case["na"] = case["col"]              # missing values injected into the str / categorical / datetime column
+        elif na_wanted and nas and rng.random() < 0.8:
+            case["col"] = rng.choice(nas + ["c"])
+        else:
+            case["col"] = rng.choice(pool)
+        if op in ("cov", "corr"):
+            case["col2"] = rng.choice(POOL[op])
+    else:
+        special = "nm" if op in ("describe", "cov", "corr", "nlargest", "nsmallest") else "nmtbk"
+        nonnum = "bkbkt" if op in ("cov", "corr") else "tbk"
+        if op in ORDER_OPS:
+            special, nonnum = special.replace("k", ""), nonnum.replace("k", "")
+        cols = rng.sample(PLAIN, rng.randint(2, 4))
+        if na_wanted and "c" not in cols:
+            cols[rng.randrange(len(cols))] = "c"
+        if kw.get("numeric_only"):
+            cols.insert(rng.randint(0, len(cols)), rng.choice(nonnum))     # the default would see a non-numeric column
+        elif rng.random() < 0.3:
+            cols.insert(rng.randint(0, len(cols)), rng.choice(special))
+        if kw.get("axis") == 1:
+            cols = [c for c in cols if c in NUMBOOL]
+            if len(cols) < 2:
+                cols = rng.sample(NUMBOOL, 2)
+            kw.pop("numeric_only", None)
+        if op in DROPNA_OPS and rng.random() < 0.3:
+            na = [c for c in cols if c in "bkt"]
+            if na:
+                case["na"] = na[0]
+        case["cols"] = sorted(cols, key=WIDE.index) if rng.random() < 0.7 else cols
+        if op in ("nlargest", "nsmallest"):
+            cs = [c for c in case["cols"] if c in "acdnt"] or case["cols"]
+            kw["columns"] = rng.choice(cs) if rng.random() < 0.7 else rng.sample(cs, min(2, len(cs)))
+    return case
 
 
 def _fixed_case(op, target, cols, part, kw):
@@ -349,6 +560,17 @@ def _frame(case):
         pdf = _fixed_frame()
     else:
         pdf = F.rand_frame(case["seed"], nrows=case["nrows"], index=case["index"], cols="wide")
+    if case.get("na"):                                    # missing values in the str / categorical / datetime column
+        import numpy as np
+
+        for col in case["na"]:
+            mask = np.random.default_rng([case["seed"], ord(col)]).random(len(pdf)) < 0.25
+            pdf[col] = pdf[col].mask(mask)
+    if case.get("flat"):                                  # valid values of c / n / m all falsy (any) or truthy (all)
+        v = case["flat"] == "all"
+        pdf["c"] = pdf["c"].where(pdf["c"].isna(), 1.0 if v else 0.0)
+        pdf["n"] = pdf["n"].where(pdf["n"].isna(), 1 if v else 0)
+        pdf["m"] = pdf["m"].where(pdf["m"].isna(), v)
     if case.get("poszero") and "c" in pdf:                # only used by the label ablation: -0.0 -> +0.0
         pdf["c"] = pdf["c"] + 0.0
     for col, dt in (case.get("cast") or {}).items():     # only used by the label ablation
@@ -362,12 +584,14 @@ def _select(obj, case):
     return obj[list(case["cols"])]
 
 
-def _program(obj, base, case, dask_side):
+def _program(obj, base, case, dask_side, info=None):
     """The same program for both sides; `obj` is the selected frame/series, `base` the whole frame."""
     op = case["op"]
     kw = dict(case["kw"])
     if dask_side and "se" in case:
         kw["split_every"] = case["se"]
+    if dask_side and "so" in case:
+        kw["split_out"] = case["so"]
     if op == "len":
         return len(obj)
     if op in ("cov", "corr") and case["target"] == "series":
@@ -375,8 +599,37 @@ def _program(obj, base, case, dask_side):
     else:
         r = getattr(obj, op)(**kw)
     if dask_side and hasattr(r, "compute"):
+        if info is not None:
+            info.update(_graph_shape(r))
         r = r.compute(scheduler="sync")
     return r
+
+
+def _graph_shape(coll):
+    """what the lowered graph holds: intermediate combine levels of a TreeReduce (keys (<cls>-tree-<token>, j >= 1, i))
+    and shuffle tasks (the split_out path)"""
+    try:
+        g = coll.__dask_graph__()
+    except Exception:  # noqa: BLE001 - compute() will raise the same error inside the monitored call
+        return {}
+    levels, shuffle = 0, False
+    for k in g:
+        name = k[0] if isinstance(k, tuple) else k
+        if not isinstance(name, str):
+            continue
+        if "shuffle" in name:
+            shuffle = True
+        if isinstance(k, tuple) and len(k) == 3 and "-tree-" in name and isinstance(k[1], int) and k[1] > levels:
+            levels = k[1]
+    return {"tree_levels": levels, "shuffle": shuffle}
+
+
+def _resolve(case, pdf):
+    """symbolic keyword values: min_count 'v+1' = one more than the smallest number of valid values of a used column"""
+    if case["kw"].get("min_count") == "v+1":
+        v = min([int(pdf[c].notna().sum()) for c in _used_columns(case)] or [0])
+        case = _variant(case, kw_min_count=v + 1)
+    return case
 
 
 class _Outcome:
@@ -407,6 +660,7 @@ def _evaluate(case):
     from ..gen import frames as F
 
     pdf = _frame(case)
+    case = _resolve(case, pdf)
     with warnings.catch_warnings():
         warnings.simplefilter("ignore")
         try:
@@ -434,7 +688,7 @@ def _evaluate(case):
         facts = _facts(case, pdf, parts)
         try:
             with np.errstate(all="ignore"):
-                result = _program(_select(ddf, case), ddf, case, True)
+                result = _program(_select(ddf, case), ddf, case, True, facts)
         except NotImplementedError as ex:
             return _Outcome("unsupported", msg=str(ex)[:80], facts=facts)
         except Exception as ex:  # noqa: BLE001
@@ -474,8 +728,8 @@ def _facts(case, pdf, parts):
         z = z[z == 0]
         sz = bool(len(z) and np.signbit(z).any() and not np.signbit(z).all())
     return {"signed_zero": sz, "min_valid": int(min([pdf[c].notna().sum() for c in cols] or [0])), "n": len(pdf), "nparts": len(parts), "lens": lens, "empty_part": len(pdf) > 0 and 0 in lens,
-            "allna_part": allna, "single_row_part": 1 in lens,
-            "tree": isinstance(se, int) and not isinstance(se, bool) and len(parts) > se}
+            "allna_part": allna, "single_row_part": 1 in lens, "tree_levels": 0, "shuffle": False,
+            "tree":isinstance(se, int) and not isinstance(se, bool) and len(parts) > se}
 
 
 def _scale(pdf, case):
@@ -499,6 +753,12 @@ def _compare(case, r, e, pdf, facts):
         return None if (isinstance(r, int) and r == e) else ("values", "len %r vs %r" % (r, e))
     if op == "value_counts":
         return _cmp_value_counts(case, r, e, check_dtype)
+    if op == "unique":
+        return _cmp_unique(r, e, check_dtype)
+    if op == "mode" and case["kw"].get("dropna") is False:
+        # the place of a missing mode among the sorted modes is an accident of pandas' code path (first for
+        # categorical / datetime, last otherwise): missing entries are moved to the end on both sides
+        r, e = _missing_last(r), _missing_last(e)
     if op == "describe":
         if not isinstance(r, type(e)):
             return ("kind", "got %s, expected %s" % (type(r).__name__, type(e).__name__))
@@ -510,6 +770,20 @@ def _compare(case, r, e, pdf, facts):
     if isinstance(e, (pd.Series, pd.DataFrame)):
         return _cmp_pandas(r, e, True, check_dtype)
     return _cmp_scalar(r, e, _scale(pdf, case), check_dtype)
+
+
+def _missing_last(x):
+    import numpy as np
+    import pandas as pd
+
+    def one(s):
+        return s.iloc[np.argsort(s.isna().to_numpy(), kind="stable")].reset_index(drop=True)
+
+    if isinstance(x, pd.Series):
+        return one(x)
+    if isinstance(x, pd.DataFrame) and x.columns.is_unique and len(x.columns):
+        return pd.DataFrame({c: one(x[c]) for c in x.columns}, columns=x.columns)
+    return x
 
 
 def _norm_dtype(dt):
@@ -673,10 +947,46 @@ def _cmp_value_counts(case, r, e, check_dtype):
         return mm
     if r.index.name != e.index.name:
         return ("name", "index name %r vs expected %r" % (r.index.name, e.index.name))
-    if len(r) > 1:      # pandas default sort=True: sorted by count, descending (ties unspecified)
-        v = r.to_numpy()
+    kw = case["kw"]
+    if len(r) > 1 and kw.get("sort", True) in (True, None):
+        # pandas sort=True (its default): sorted by count, descending unless ascending=True (ties unspecified);
+        # sort=False promises no order that a partitioned computation could reproduce -> multiset only
+        v = [float(x) for x in r.to_numpy()]
+        if kw.get("ascending"):
+            v = v[::-1]
         if not all(v[i] >= v[i + 1] for i in range(len(v) - 1)):
-            return ("order", "counts not non-increasing: %s" % ([int(x) for x in v][:12],))
+            return ("order", "counts not %s: %s" % ("non-decreasing" if kw.get("ascending") else "non-increasing",
+                                                    [round(x, 3) for x in (v[::-1] if kw.get("ascending") else v)][:12]))
+    return None
+
+
+def _cmp_unique(r, e, check_dtype):
+    """Series.unique: pandas gives an array in order of first appearance, dask a Series whose order depends on the
+    partitioning/shuffle: the SET of values (missing markers unified, each value once) and the dtype are compared"""
+    import pandas as pd
+
+    if not isinstance(r, pd.Series):
+        return ("kind", "got %s, expected a Series of the unique values" % type(r).__name__)
+
+    def norm(vals):
+        out = []
+        for v in vals:
+            try:
+                miss = bool(pd.isna(v))
+            except (TypeError, ValueError):
+                miss = False
+            out.append(("~missing",) if miss else (type(v).__name__ if isinstance(v, str) else "", v))
+        return out
+
+    rv, ev = norm(list(r.astype(object))), norm(list(pd.Series(e).astype(object)))
+    if len(rv) != len(set(rv)):
+        return ("duplicates", "unique() holds a value twice: %r" % (list(r)[:12],))
+    if set(rv) != set(ev):
+        rm, em = ("~missing",) in rv, ("~missing",) in ev
+        kind = "spurious-NA" if (rm and not em) else ("lost-NA" if (em and not rm) else "values")
+        return (kind, "unique values %r vs expected %r" % (list(r)[:12], list(e)[:12]))
+    if check_dtype and len(ev) and _norm_dtype(r.dtype) != _norm_dtype(pd.Series(e).dtype):
+        return ("dtype", "dtype %s vs expected %s" % (r.dtype, pd.Series(e).dtype))
     return None
 
 
@@ -788,8 +1098,17 @@ def _canonical(fam, feats, sym, cur):
         f2 = "rowwise" if "axis=1" in F else fam
         if f2 in ("std", "sem") and "nullable" in classes:
             f2 = "var"
-        return "%s:%s-column:%s" % (f2, "+".join(sorted(classes)), symclass)
-    return "%s:%s:%s" % (fam, "&".join(feats) or "any", sym)
+        # causal options of the keyword x tree stratum stay in the label (a dtype-class label must not absorb a
+        # defect of the dropna / sort / normalize / split_out handling); split_out=True and =2 are the same shuffle path
+        extra = []
+        for f in feats:
+            if f.startswith(("dropna=", "sort=", "normalize=", "ascending=", "split_out", "tree-path")) and f not in extra:
+                extra.append(f)
+        return "%s:%s:%s" % (f2, "&".join(["+".join(sorted(classes)) + "-column"] + extra), symclass)
+    if fam == "value_counts" and "split_every-tree" in F:
+        # a failure of the intermediate combine level: which partition fed it (empty / all-NA / any) is a trigger variant
+        feats = [f for f in feats if f not in ("multi-partition", "all-NA-partition", "empty-partition")]
+    return"%s:%s:%s" % (fam, "&".join(feats) or "any", sym)
 
 
 def _min_cols(cur, s):
@@ -837,8 +1156,8 @@ def _attribute(case, out):
     s = out.symptom
     op = case["op"]
     fam = FAMILY.get(op, op)
-    if op == "value_counts" and s == "order":
-        return ("value_counts", ["sort-omitted"], "order", case)   # static predicate: the default call
+    if op == "value_counts" and s == "order" and case["kw"].get("sort") is None:
+        return ("value_counts", ["sort-omitted"], "order", case)   # static predicate: sort left to dask's default
     feats = []
     cur = case
     multi = op in ("cov", "corr") or case["kw"].get("axis") == 1
@@ -892,8 +1211,8 @@ def _attribute(case, out):
                     if _repro(v, s):
                         cur, col, classes = v, sub, set()
                         break
-            if op != "value_counts":
-                fv = _variant(cur, target="frame", cols=[col], col=_DROP)
+            if op not in ("value_counts", "unique"):
+                fv = _variant(cur, target="frame", cols=[col], col=_DROP, so=_DROP)
                 if op in ("nlargest", "nsmallest"):
                     fv["kw"]["columns"] = col
                 if not _repro(fv, s):
@@ -926,11 +1245,34 @@ def _attribute(case, out):
         feats.append("numeric_only=True")
     if kw.get("min_count") and _gone(_variant(cur, kw_min_count=_DROP), s):
         feats.append("min_count>0")
+    if kw.get("dropna") is False and _gone(_variant(cur, kw_dropna=_DROP), s):
+        feats.append("dropna=False")
+    if kw.get("normalize") and _gone(_variant(cur, kw_normalize=_DROP), s):
+        feats.append("normalize=True")
+    tree_path = False
+    if cur["op"] == "value_counts":
+        # sort=True and split_out=1 (the default for a categorical column) both select the TreeReduce path; when the
+        # failure needs that path (gone on the shuffle path), neither of them is causal on its own
+        so = cur.get("so", 1 if cur.get("col") == "k" and not cur.get("cast") else True)
+        if ((so is not True and so == 1) or kw.get("sort")) and _gone(_variant(cur, so=True, kw_sort=_DROP), s):
+            feats.append("tree-path")
+            tree_path = True
+    if not tree_path and kw.get("sort") is not None and _gone(_variant(cur, kw_sort=_DROP), s):
+        feats.append("sort=%s" % kw["sort"])
+    if kw.get("ascending") and _gone(_variant(cur, kw_ascending=_DROP), s):
+        feats.append("ascending=True")
+    if not tree_path and "so" in cur and _gone(_variant(cur, so=_DROP), s):
+        # True and 2 are the same shuffle path; 1 is the tree path
+        feats.append("split_out=1" if (cur["so"] is not True and cur["so"] == 1) else "split_out>1")
+    if cur.get("na") and _gone(_variant(cur, na=_DROP), s):
+        feats.append("missing-values")          # NaN/NaT injected into the str / categorical / datetime column
+    if cur.get("flat") and _gone(_variant(cur, flat=_DROP), s):
+        feats.append("all-valid-values-%s" % ("truthy" if cur["flat"] == "all" else "falsy"))
     oc = _evaluate(cur)
     facts = oc.facts or out.facts
     if kw.get("ddof", 1) != 1 and _gone(_variant(cur, kw_ddof=_DROP), s):
         feats.append("ddof>=count" if facts["min_valid"] <= kw["ddof"] else "ddof!=1")
-    if "se" in cur and cur["se"] is not False and not _repro(_variant(cur, se=False), s):
+    if (cur["se"] is not False if "se" in cur else cur["op"] in DEFAULT_TREE_OPS) and not _repro(_variant(cur, se=False), s):
         feats.append("split_every-tree")
     # -- partitioning
     if facts["n"] > 0:
@@ -948,6 +1290,51 @@ def _attribute(case, out):
             else:
                 feats.append("multi-partition")
     return (fam, feats, s, cur)
+
+
+def _strict_same(a, b):
+    import pandas as pd
+
+    if isinstance(a, (pd.Series, pd.DataFrame)):
+        return type(a) is type(b) and a.shape == b.shape and bool(a.equals(b)) and list(a.index) == list(b.index)
+    if isinstance(b, (pd.Series, pd.DataFrame)):
+        return False
+    try:
+        if bool(pd.isna(a)) or bool(pd.isna(b)):
+            return bool(pd.isna(a)) and bool(pd.isna(b))
+        return bool(a == b)
+    except Exception:  # noqa: BLE001
+        return False
+
+
+def _effective_kws(case, expected):
+    """keywords passed with a non-default value ON DATA WHERE THE DEFAULT GIVES ANOTHER RESULT: pandas is re-run with
+    the keyword left out; it must raise or answer differently (sort=True is pandas' own default but not dask's: it
+    counts when the counts are not all equal, i.e. when the order is observable)"""
+    import numpy as np
+    import pandas as pd
+
+    pdf = _frame(case)
+    rc = _resolve(case, pdf)
+    eff = []
+    for k, v in case["kw"].items():
+        if k not in KW_DEFAULTS or v == KW_DEFAULTS[k] and type(v) is type(KW_DEFAULTS[k]):
+            continue
+        if k == "sort" and v is True:
+            if isinstance(expected, pd.Series) and expected.nunique() > 1:
+                eff.append(k)
+            continue
+        var = _variant(rc, **{"kw_" + k: _DROP})
+        try:
+            with warnings.catch_warnings(), np.errstate(all="ignore"):
+                warnings.simplefilter("ignore")
+                other = _program(_select(pdf, var), pdf, var, False)
+        except Exception:  # noqa: BLE001 - the default is refused on this data: the keyword matters
+            eff.append(k)
+            continue
+        if not _strict_same(expected, other):
+            eff.append(k)
+    return eff
 
 
 def run_case(case, ctx):
@@ -982,7 +1369,29 @@ def run_case(case, ctx):
         ctx.count("skipna_false")
     if facts["n"] > 0:
         ctx.count("dtype_facet_checked")
-    ctx.distinct("op_options", (op, case["target"], sorted(kw.items(), key=str), repr(case.get("se", "omit"))))
+    # keyword x tree coverage: an intermediate combine level was really present in the lowered graph (or the
+    # split_out shuffle, or - for axis=1, which has no tree - at least 5 partitions), and the keyword mattered
+    multi = facts["tree_levels"] >= 1
+    shuf = facts["shuffle"] and facts["nparts"] >= 5
+    if multi:
+        ctx.count("multi_level_tree_cases")
+        ctx.distinct("multi_level_tree_ops", "%s:%s" % (op, case["target"]))
+    if shuf:
+        ctx.count("shuffle_path_cases")
+    if multi or shuf or (kw.get("axis") == 1 and facts["nparts"] >= 5):
+        se, so = repr(case.get("se", "omit")), repr(case.get("so", "omit"))
+        ctx.distinct("tree_configs", (op, "tree" if multi else ("shuffle" if shuf else "rowwise"), se, so))
+        for k in _effective_kws(case, out.expected):
+            if k == "axis":
+                ctx.count("kw_rowwise:%s:axis" % op)
+            else:
+                if multi:
+                    ctx.count("kw_tree:%s:%s" % (op, k))
+                if shuf:
+                    ctx.count("kw_shuffle:%s:%s" % (op, k))
+            ctx.distinct("nondefault_kw", (op, k, repr(kw[k]), "tree" if multi else ("shuffle" if shuf else "rowwise"), se, so))
+    ctx.distinct("op_options",(op, case["target"], sorted(kw.items(), key=str), repr(case.get("se", "omit")),
+                                repr(case.get("so", "omit"))))
     ctx.distinct("partition_shapes", facts["lens"])
     if out.status == "bad":
         detail = dict(facts=facts, result=repr(out.result)[:300], expected=repr(out.expected)[:300])
